@@ -1752,6 +1752,13 @@ func (db *DB) Dump(w io.Writer, tableNames ...string) error {
 		}
 	}
 
+	// Every query below must see the same committed state, even if writes are
+	// in flight, so run them all inside a single read transaction.
+	if _, err := conn.ExecContext(ctx, "BEGIN"); err != nil {
+		return err
+	}
+	defer conn.ExecContext(ctx, "ROLLBACK")
+
 	if _, err := w.Write([]byte("PRAGMA foreign_keys=OFF;\nBEGIN TRANSACTION;\n")); err != nil {
 		return err
 	}
